@@ -25,7 +25,7 @@ CHECKS = {
         'lean_modules': ['Pangaea.Theorems.C10'],
         'theorem_modules': ['Pangaea.Theorems.C10'],
         'theorems': ['Pangaea.C10.add_exact', 'Pangaea.C10.sub_exact', 'Pangaea.C10.mul_exact', 'Pangaea.C10.neg_exact',
-                     'Pangaea.C10.tdiv_fits', 'Pangaea.C10.floorDiv_exact', 'Pangaea.C10.mod_spec', 'Pangaea.C10.zero_divisor',
+                     'Pangaea.C10.tdiv_fits', 'Pangaea.C10.floorDiv_exact', 'Pangaea.C10.mod_spec', 'Pangaea.C10.remOk_iff', 'Pangaea.C10.mod_remOk', 'Pangaea.C10.zero_divisor',
                      'Pangaea.C10.div_is_float_quotient', 'Pangaea.C10.cmp_spec', 'Pangaea.C10.pow_exact'],
         'harness': ['C10'],
         'shards': 4,
@@ -303,7 +303,7 @@ CHECKS = {
         'theorems': ['Pangaea.C08.kwparams_any_order', 'Pangaea.C08.kwvars_any_order', 'Pangaea.C08.sortNames_eq_of_perm', 'Pangaea.C08.sortPairs_perm', 'Pangaea.C08.lookup_perm',
                      'Pangaea.C08.addFirst_keeps', 'Pangaea.C08.addAllFirst_keeps', 'Pangaea.Core.allStable', 'Pangaea.C08.output_only_grows',
                      'Pangaea.C08.program_output_only_grows', 'Pangaea.C08.call_output_only_grows', 'Pangaea.C08.stdin_only_consumed',
-                     'Pangaea.C08.elems_left_to_right', 'Pangaea.C08.seq_of_gives', 'Pangaea.C08.gives_of_seq'],
+                     'Pangaea.C08.elems_left_to_right', 'Pangaea.C08.seq_of_gives', 'Pangaea.C08.gives_of_seq', 'Pangaea.C08.call_order'],
         'harness': ['C08'],
         'shards': 14,
         'spec_is_function': True,
